@@ -46,6 +46,29 @@ def json_compound_ids(j, out=None):
     return out
 
 
+F16F = "F16f"
+
+
+def siblings_equal_as_json(o):
+    """class predicate of known finding F16f: some node has two children with different ids whose JSON forms are equal
+    (they differ only in the `sign` argument as passed — explicit default sign vs none — which enters the generated id
+    but is not written to JSON because it can be inferred)"""
+    if is_var(o):
+        return False
+    seen = {}
+    for c in o.propositions:
+        if is_var(c):
+            continue
+        try:
+            key = json.dumps(canon_json(copy.deepcopy(c).to_json()), sort_keys=True)
+        except Exception:
+            continue
+        if key in seen and seen[key] != c.id:
+            return True
+        seen.setdefault(key, c.id)
+    return any(siblings_equal_as_json(c) for c in o.propositions)
+
+
 def do_case(ctx, inp):
     a = inp["ast"]
     o = build(a)
@@ -72,7 +95,8 @@ def do_case(ctx, inp):
     for s in assignments(ctx.rng, lv, 256 if ctx.quick else 2048):
         v1, v2 = o.evaluate(s).as_tuple(), o2.evaluate(s).as_tuple()
         if v1 != v2:
-            ctx.fail("round-trip-changes-evaluation", {"sigma": s, "before": list(map(int, v1)), "after": list(map(int, v2)), "json": j}); return
+            ctx.fail("round-trip-changes-evaluation", {"sigma": s, "before": list(map(int, v1)), "after": list(map(int, v2)), "json": j},
+                     known=F16F if siblings_equal_as_json(o) else None); return
     ex = explicit_ids(a)
     kept = {n["id"] for n in subs(t2) if n["k"] == "node"}
     present = {n["id"] for n in subs(t) if n["k"] == "node"}
